@@ -173,6 +173,33 @@ func c14Defaults(c *Ctx, withOrder bool) {
 		var events []hdrEvent
 		eachInstr(cl, func(i ssa.Instruction) {
 			switch x := i.(type) {
+			case *ssa.Store:
+				// tgt.Header = cloneOf(defaults): the defaults arrive as a fresh copy
+				fa, isFA := x.Addr.(*ssa.FieldAddr)
+				if !isFA || !isNamedType(fa.X.Type(), "lib", "Target") || fieldName(fa.X.Type(), fa.Field) != "Header" {
+					return
+				}
+				call, isCall := x.Val.(*ssa.Call)
+				if !isCall {
+					return
+				}
+				if callName(&call.Call) == "(net/http.Header).Clone" && isDefaultsMap(call.Call.Args[0]) {
+					events = append(events, hdrEvent{x, true, 0})
+					return
+				}
+				h := call.Call.StaticCallee()
+				if h == nil || h.Pkg != cl.Pkg || len(h.Blocks) == 0 {
+					return
+				}
+				for k, arg := range call.Call.Args {
+					if !isDefaultsMap(arg) || k >= len(h.Params) {
+						continue
+					}
+					events = append(events, hdrEvent{x, true, 0})
+					if why, okC := copiesHeaderValues(h, h.Params[k]); !okC {
+						c.Fail(fmt.Sprintf("borrow:%s:%s", shortFn(cl), shortFn(h)), rBorrow, why+" (in helper "+shortFn(h)+"): a target's own value appended under one key overwrites the defaults of another", c.fnAt(h))
+					}
+				}
 			case *ssa.MapUpdate:
 				if !isNamedType(x.Map.Type(), "net/http", "Header") || isDefaultsMap(x.Map) {
 					return
@@ -685,6 +712,56 @@ func isUnsafeType(t types.Type) (string, bool) {
 		}
 	}
 	return "", false
+}
+
+// copiesHeaderValues: h builds a new header from its parameter p; every value it stores is a
+// slice of its own — freshly allocated per key, or a full-slice expression s[:n:n] of a shared
+// array (capacity clipped, the http.Header.Clone idiom). A plain s[:n] of a shared array leaves
+// spare capacity that runs into the next key's values.
+func copiesHeaderValues(h *ssa.Function, p *ssa.Parameter) (string, bool) {
+	why, ok := "", true
+	n := 0
+	eachInstr(h, func(i ssa.Instruction) {
+		mu, isMU := i.(*ssa.MapUpdate)
+		if !isMU || !isNamedType(mu.Map.Type(), "net/http", "Header") || mu.Map == ssa.Value(p) {
+			return
+		}
+		n++
+		switch v := mu.Value.(type) {
+		case *ssa.Slice:
+			if v.Max != nil {
+				return // capacity clipped
+			}
+			// a two-index reslice: acceptable only of a slice allocated in this same iteration
+			shared := false
+			flowsFrom(v.X, func(x ssa.Value) bool {
+				if mk, isMk := x.(*ssa.MakeSlice); isMk && loopHeaderOf(mk.Block()) != loopHeaderOf(mu.Block()) {
+					shared = true
+				}
+				return false
+			})
+			if shared {
+				why, ok = "header values are carved out of one shared array without clipping their capacity (s[:n] instead of s[:n:n])", false
+			}
+		default:
+			if flowsFrom(mu.Value, func(x ssa.Value) bool {
+				if ex, isEx := x.(*ssa.Extract); isEx && ex.Index == 2 {
+					if nx, isNx := ex.Tuple.(*ssa.Next); isNx {
+						if rg, isRg := nx.Iter.(*ssa.Range); isRg && rg.X == ssa.Value(p) {
+							return true
+						}
+					}
+				}
+				return false
+			}) && !isFreshSlice(mu.Value) {
+				why, ok = "the source's value slices are stored without being copied", false
+			}
+		}
+	})
+	if n == 0 {
+		return "the helper stores nothing into the header it returns", false
+	}
+	return why, ok
 }
 
 // selfLocking: a method of a repository type that takes a mutex field of its own receiver before
